@@ -13,7 +13,11 @@ mkdir -p /tmp/seedverify; rm -rf $WT; : > $LOG
 git -C /repo worktree add --detach $WT HEAD >>$LOG 2>&1 || exit 2
 cleanup() { git -C /repo worktree remove --force $WT >>$LOG 2>&1; }
 trap cleanup EXIT
-if [ -d "$DEMO" ]; then cp $DEMO/*.go $WT/$DEST/ || exit 2; DEMOFILES=$(cd $DEMO && ls *.go); else cp $DEMO $WT/$DEST/ || exit 2; DEMOFILES=$(basename $DEMO); fi
+TREE=""
+if [ -d "$DEMO" ] && [ -n "$(find $DEMO -mindepth 2 -type f -name '*.go' | head -1)" ]; then
+  # demo/ mirrors the repository layout
+  TREE=1; (cd $DEMO && find . -type f -name '*.go') > $WT/.demofiles; (cd $DEMO && tar cf - .) | (cd $WT && tar xf -) || exit 2
+elif [ -d "$DEMO" ]; then cp $DEMO/*.go $WT/$DEST/ || exit 2; DEMOFILES=$(cd $DEMO && ls *.go); else cp $DEMO $WT/$DEST/ || exit 2; DEMOFILES=$(basename $DEMO); fi
 PKG=./$DEST/
 cd $WT
 echo "== demo WITHOUT change" >>$LOG
@@ -21,7 +25,7 @@ go test -vet=off -count=1 -run "$RUN" $PKG >>$LOG 2>&1; R0=$?
 git apply $SRC/patch.diff >>$LOG 2>&1 || { echo "patch fails to apply" >>$LOG; exit 2; }
 echo "== demo WITH change" >>$LOG
 go test -vet=off -count=1 -run "$RUN" $PKG >>$LOG 2>&1; R1=$?
-for f in $DEMOFILES; do rm -f $WT/$DEST/$f; done
+if [ -n "$TREE" ]; then (cd $WT && xargs rm -f < .demofiles; rm -f .demofiles); else for f in $DEMOFILES; do rm -f $WT/$DEST/$f; done; fi
 echo "== build + compile tests" >>$LOG
 go build ./... >>$LOG 2>&1 && go test -vet=off -count=1 -run '^$' ./... >>$LOG 2>&1; RB=$?
 RS=skipped
@@ -35,7 +39,7 @@ fi
 echo "RESULT $ID-$X demo_without=$R0 demo_with=$R1 build=$RB suite=$RS" | tee -a $LOG
 if [ $R0 -eq 0 ] && [ $R1 -ne 0 ] && [ $RB -eq 0 ] && { [ "$RS" = 0 ] || [ "$RS" = skipped ]; }; then
   OUT=/verif/seeded/$ID-$X; mkdir -p $OUT/demo
-  cp $SRC/patch.diff $OUT/; if [ -d "$DEMO" ]; then cp $DEMO/*.go $OUT/demo/; else cp $DEMO $OUT/demo/; fi; cp $SRC/notes.md $OUT/notes.md
+  cp $SRC/patch.diff $OUT/; if [ -d "$DEMO" ]; then cp -r $DEMO/. $OUT/demo/; else cp $DEMO $OUT/demo/; fi; cp $SRC/notes.md $OUT/notes.md
   python3 - "$ID" "$X" "$DEST" "$RUN" "$R0" "$R1" "$RB" "$RS" > $OUT/meta.json <<'PY'
 import json,sys
 ID,X,DEST,RUN,R0,R1,RB,RS=sys.argv[1:9]
